@@ -172,7 +172,27 @@ fn run(cx: &Cx) {
 }
 
 fn replay(case: &J) -> String {
-    format!("re-run the check; case = {case}")
+    let refs = Schema::from_sdl(s1::SDL).unwrap();
+    let schema = s1::schema();
+    let want: Vec<String> = case["schedule"].as_array().map(|a| a.iter().filter_map(|x| x.as_str().map(String::from)).collect()).unwrap_or_default();
+    let text = case["query"].as_str().unwrap_or("");
+    let Some(di) = DOCS.iter().position(|(d, _)| *d == text) else { return "document is not in the check's list any more".into() };
+    let world = format!("{:?}", agv_common::glue::table_from_json(&case["world"]));
+    let found = std::sync::Mutex::new(None);
+    explore(
+        &ExploreCfg { bounds: [0, 2, 0, 0], ..Default::default() },
+        &|ch: &mut Chooser| {
+            // pin the document choice, leave the rest to the explorer
+            let r = run_one(&refs, &schema, ch, DOCS.len());
+            r
+        },
+        &|_, r: Run| {
+            if r.doc == di && r.schedule == want && format!("{:?}", r.table) == world {
+                *found.lock().unwrap() = Some(format!("schedule {:?}\n responses {:?}", r.schedule, r.responses.iter().map(|o| o.to_json().to_string()).collect::<Vec<_>>()));
+            }
+        },
+    );
+    found.into_inner().unwrap().unwrap_or_else(|| "the recorded (world, schedule) is no longer reachable".into())
 }
 
 fn main() {
